@@ -24,11 +24,13 @@ CHECKS = [
     {'id': 'C01', 'engine': 'E2-choice', 'level': 'exploration', 'design_ref': 'DESIGN.md 4/C01',
      'technique': 'bounded exhaustive enumeration (every element x every length/value variant, all element pairs, '
                   'structured long messages) of the real dumps/loads with a round-trip oracle',
-     'text': 'Every configured element alone at every admissible length (1..99 / 1..999) and value variant, every '
-             'pair of elements at boundary variants, and long-message families are executed through the real '
-             'dumps/loads for the packaged and generated configurations (every bit carries every field kind over '
-             'the 14 shifts), ASCII- and EBCDIC-family codecs and both bitmap renderings. Exhaustive within the '
-             'stated families, which cover each way a field rendering or a neighbour boundary can go wrong.',
+     'text': 'Every configured element alone at every admissible length (1..99 / 1..999) and value variant (incl. content '
+             'that looks like padding / absence / structure, non-ASCII single-byte characters, numbers up to 99 '
+             'digits, every year of the two-digit window), every pair of elements at boundary variants (thorough: '
+             'triples), long-message families, and sequences (other library uses before the call, A/B/A alternation '
+             'of configurations / codecs / bitmaps, one configuration object edited in place) are executed through '
+             'the real dumps/loads for the packaged and generated configurations (also with non-ascending key '
+             'order), ASCII- and EBCDIC-family codecs and both bitmap renderings.',
      'note': 'Subsets beyond singles, pairs and the long families are not enumerated. Domain exclusions listed in '
              'the evidence assumptions.'},
     {'id': 'C02', 'engine': 'E2-choice', 'level': 'exploration', 'design_ref': 'DESIGN.md 4/C02',
@@ -58,12 +60,13 @@ CHECKS = [
     {'id': 'C11', 'engine': 'E1-bfs', 'level': 'model_checking', 'design_ref': 'DESIGN.md 4/C11',
      'technique': 'explicit-state BFS over writer lifecycle histories (write* then close/exit sequences) on the real '
                   'VbsWriter/IpmWriter, BytesIO and real files',
-     'text': 'All histories write^<=3 (4 record sizes incl. block-boundary ones) followed by up to 3 finalisations '
-             'from {close, exit, exit-with-exception} for both writers, both formats, three file kinds; states '
-             'deduplicated on file digest + all writer/blocker attributes; after every finalisation the file must '
-             'read back (reference parser and real reader) as exactly the records written and later finalisations '
-             'must not change a byte.',
-     'note': 'Writes after finalisation are outside the statement. Thorough: 4 writes / 4 finalisations.'},
+     'text': 'All histories write^<=2 (quick) / <=3 (thorough) over 6 record kinds (block-boundary sizes, records ending '
+             'in four NUL bytes) followed by up to 3 / 4 finalisations from {close, exit, exit-with-exception}, with '
+             '__enter__ and 300 unrelated writers finalised in between as further operations, for both writers, '
+             'both formats, three file kinds; states deduplicated on file digest + all writer/blocker attributes + '
+             'the operations that must not matter; after every finalisation the file must read back (reference '
+             'parser and real reader) as exactly the records written and later finalisations must not change a byte.',
+     'note': 'Writes after finalisation are outside the statement; presence of the zero-length terminator is judged by C03.'},
     {'id': 'C04', 'engine': 'E1-bfs', 'level': 'model_checking', 'design_ref': 'DESIGN.md 4/C04',
      'technique': 'explicit-state BFS over the real Block1014 object: all 1013 abstract states x every write size, '
                   'finalised output compared with a reference blocker',
@@ -83,7 +86,8 @@ CHECKS = [
              'boundary-relative menu (quick) and read() with no size are executed on the real object and must return '
              'the next slice of the payload stream. One-shot unblocker: inverse of block_1014 for every length, every '
              'truncation length 0..3042 and every value of all six trailer bytes refused. Blocked vs unblocked '
-             'record reading on all pairs of a 27-length boundary alphabet.',
+             'record reading on all pairs of a 27-length boundary alphabet; two unblockers on different files with '
+             'their reads interleaved in every order.',
      'note': 'read(0) excluded (indistinguishable from "no size"). Inputs are whole blocks; read sizes above two '
              'blocks repeat the same refill loop.'},
     {'id': 'C15', 'engine': 'E2-choice', 'level': 'exploration', 'design_ref': 'DESIGN.md 4/C15',
@@ -104,7 +108,8 @@ CHECKS = [
              'both formats, packaged and custom configuration. Isolation: all 2520 merges of two operations each of 2 '
              'writers + 2 readers, switch-bounded merges of three operations each, and every placement of <=1 (quick) '
              '/ <=2 (thorough) preemptions at cardutil line events for the pairs next||next, write||write, write||next, '
-             'dumps||loads; every instance must observe exactly what it observes in a solo run.',
+             'dumps||loads; every instance must observe exactly what it observes in a solo run. Round trips also under one '
+             'custom configuration object edited in place between files.',
      'note': 'Line granularity, not bytecode granularity; two threads; preemption bound 1 (quick) / 2 (thorough).'},
     {'id': 'C07', 'engine': 'E4-faults', 'level': 'fault_enumeration', 'design_ref': 'DESIGN.md 4/C07',
      'technique': 'exhaustive fault enumeration (0, 1, 2 byte deviations, numeral closure, short-string closure) '
@@ -113,7 +118,9 @@ CHECKS = [
              'position (all positions in thorough), insert/delete, pairs of structural positions, every string over an '
              '11-value alphabet in every length numeral, and every string of length <=3 (quick) / <=5 (thorough) over 8 '
              'symbols after a single-bit header for every configured bit: loads must return a dict or raise the '
-             'library error, readers must stop or raise MciIpmDataError, and the watchdog must never fire.',
+             'library error, readers must stop or raise MciIpmDataError, and the watchdog must never fire; also with the '
+             'configuration entry of a flagged element removed / restored / retyped in place between decodes, and '
+             'through the command-line tools (diagnostic instead of traceback).',
      'note': 'Mutation depth above 2 (3 inside one numeral) is not explored; random byte strings are not sampled.'},
     {'id': 'C08', 'engine': 'E4-faults', 'level': 'fault_enumeration', 'design_ref': 'DESIGN.md 4/C08',
      'technique': 'exhaustive fault enumeration near the valid language judged by a re-tiling oracle and an independent '
@@ -121,14 +128,16 @@ CHECKS = [
      'text': 'C07 mutation sets plus zero-length variable elements, bitmap bit flips, extensions, and the closure of '
              'short strings after one- and two-bit headers. Whenever loads returns, the message is re-tiled from the '
              'returned dict (prefix + declared bytes, value = own bytes, no overlap / gap / leftover, no negative '
-             'length); whenever the strict reference accepts, loads must accept with the same dict.',
+             'length); whenever the strict reference accepts, loads must accept with the same dict. Also under alternating '
+             'configurations, one configuration edited in place, maximum-length elements and two utf-8 messages.',
      'note': 'Numerals that are not plain ASCII digits and malformed PDS/ICC content are don\'t-cares for acceptance.'},
     {'id': 'C10', 'engine': 'E4-faults', 'level': 'fault_enumeration', 'design_ref': 'DESIGN.md 4/C10',
      'technique': 'exhaustive enumeration of (file size n, faulty position k, fault kind, format, codec) on the real '
                   'IpmReader',
      'text': 'Every n<=4 (6 thorough), every k, ten fault kinds incl. framing-level ones, plus every structural byte of '
              'record k x a 10-value alphabet in 3-record files: records before k delivered unchanged, then '
-             'MciIpmDataError with record_number == k and the raw bytes of record k; operator message names record k.',
+             'MciIpmDataError with record_number == k and the raw bytes of record k; operator message names record k; four '
+             'reading styles (for loop, next then for, next only, fresh iter per record), eight oversized length values.',
      'note': 'Good records are reference-encoded; bad ones are single-point corruptions.'},
     {'id': 'C12', 'engine': 'E2-choice', 'level': 'exploration', 'design_ref': 'DESIGN.md 4/C12',
      'technique': 'exhaustive boundary sweep of PDS value-length pairs around the 999-character carrier cap on the '
@@ -136,7 +145,8 @@ CHECKS = [
      'text': 'All 20k (l1,l2) pairs whose running carrier length falls in 985..1005, three-tag sweeps of the second '
              'boundary, zero-length values, header look-alike values, 1..5 full carriers, tag extremes, packaged and '
              'generated carrier placement. Carriers read independently from the dumps output must concatenate to the '
-             'ascending tag4 len3 value stream, never exceed 999, never split a sub-element; loads returns the same set.',
+             'ascending tag4 len3 value stream, never exceed 999, never split a sub-element; loads returns the same set; '
+             'also with the carrier set of one configuration object edited in place between calls.',
      'note': 'Greedy packing is not required (the statement does not require it); sets that fit greedily must encode.'},
     {'id': 'C13', 'engine': 'E2-choice', 'level': 'exploration', 'design_ref': 'DESIGN.md 4/C13',
      'technique': 'exhaustive enumeration over PIN length x PAN length with 1- and 2-position digit deviations, '
@@ -144,7 +154,8 @@ CHECKS = [
      'text': 'PIN length 4..12 x PAN length 13..19 crossed fully, four digit backgrounds, every position x every digit, '
              'pairs of positions, six fill values incl. none supplied (random source replaced by a counter), TDES '
              'double/triple and AES-128/192/256 keys: clear blocks equal the ISO 9564 construction, from_bytes returns '
-             'the PIN, ciphertexts equal from-scratch FIPS 46-3 / FIPS 197 references and decrypt to the PIN.',
+             'the PIN, ciphertexts equal from-scratch FIPS 46-3 / FIPS 197 references and decrypt to the PIN; cipher mix-ins '
+             'on chosen ciphertext patterns; valid calls after calls that must fail.',
      'note': 'Key / PIN / PAN value spaces are covered over the stated alphabets and deviation bound only.'},
     {'id': 'C14', 'engine': 'E2-choice', 'level': 'exploration', 'design_ref': 'DESIGN.md 4/C14',
      'technique': 'exhaustive enumeration over PIN length x PAN length x key index plus constructed decimalisation '
@@ -152,7 +163,8 @@ CHECKS = [
      'text': 'PVV for every PIN length 4..12 x PAN length 13..19 x key index 0..9 under 8/16/24-byte keys, 1-position '
              'deviations, and vectors constructed (by decrypting target ciphertexts) so that the second decimalisation '
              'scan supplies 0,1,2,3,4 digits; every ordered component list of length 1..3 over 5 components, encrypted '
-             'zone keys under 3 master keys, KCV lengths 4/6/16.',
+             'zone keys under 3 master keys, KCV lengths 4/6/16; ordered sequences of lists sharing a component set, forwards '
+             'and backwards, in one process.',
      'note': 'Components are double-length keys.'},
     {'id': 'C16', 'engine': 'E2-choice', 'level': 'exploration', 'design_ref': 'DESIGN.md 4/C16',
      'technique': 'exhaustive enumeration of mask() inputs and of PAN / PAN-PREFIX processor placements on every '
@@ -160,7 +172,8 @@ CHECKS = [
      'text': 'mask() for every length 10..40 x digits/text x every printable mask character; PAN and PAN-PREFIX on '
              'every LLVAR/LLLVAR element of the packaged and 4 (quick) / 14 (thorough) generated configurations x PAN '
              'lengths x codecs, alone and between neighbours, via loads and IpmReader: masked shape exact, clear PAN '
-             'nowhere in the returned dict.',
+             'nowhere in the returned dict; unusual characters (line feed at every position) in card numbers; the processor '
+             'of one configuration object edited in place between decodes.',
      'note': 'Non-disclosure judged from 11 characters up (a 10-character PAN has no middle).'},
     {'id': 'C17', 'engine': 'E2-choice', 'level': 'exploration', 'design_ref': 'DESIGN.md 4/C17',
      'technique': 'exhaustive enumeration of writer-produced files (first-record shape x codec x format x every block '
@@ -168,28 +181,32 @@ CHECKS = [
      'text': 'Files from the real IpmWriter for 46 first-record shapes x 6 codecs x VBS/1014 x every block count '
              '1..10 (14 thorough): valid, right encoding family, blocked recognised, unblocked not mistaken; lengths '
              '0..39, first length around the maximum under three configured maxima, each of the 83 unconfigured bits: '
-             'invalid with a reason.',
+             'invalid with a reason; trailer-probe byte combinations, every byte value inside the first blocks, the '
+             'packaged configuration edited between inspections.',
      'note': 'Encoding family judged semantically (reported codec must decode the MTI digits).'},
     {'id': 'C18', 'engine': 'E2-choice', 'level': 'exploration', 'design_ref': 'DESIGN.md 4/C18',
      'technique': 'exhaustive enumeration of synthetic extract files (index assignments, row multisets and all their '
                   'interleavings, layouts, representations) against independent slicing',
      'text': 'All 120 assignments of look-alike sub-ids to the four configured tables, every multiset of 0..2 rows for '
              'every ordered pair of tables in EVERY interleaving, cyclic mixes with unconfigured tables, generated '
-             'layouts, compressed and expanded, latin_1/cp500, VBS/1014, also through the CSV tool; refusal cases.',
+             'layouts, compressed and expanded, latin_1/cp500, VBS/1014, through the CSV tool (function, cli_run, argv); '
+             'refusal cases; several readers in one process; a table under two sub-ids; identifier-like column text.',
      'note': 'Row layout taken from the reader documentation / configuration comments.'},
     {'id': 'C19', 'engine': 'E2-choice', 'level': 'exploration', 'design_ref': 'DESIGN.md 4/C19',
      'technique': 'exhaustive enumeration over files x ordered codec pairs x formats^2 x tools x entry points, outputs '
                   'read by the reference models, byte-exact return trip',
      'text': 'Writer-produced IPM files (7 shapes alone, all pairs, 5- and 40-record mixes) and arbitrary-byte parameter '
              'files through mci_ipm_encode, mideu convert, mci_ipm_param_encode, paramconv, every ordered pair of '
-             '{latin_1, cp500, cp037}, {vbs,1014}^2, function / cli_run / argv entry points with and without -o.',
+             '{latin_1, cp500, cp037}, {vbs,1014}^2, function / cli_run / argv entry points with and without -o; a shape made '
+             'of every punctuation character, every ORDERED pair of shapes.',
      'note': 'Records compared through vf/ref, not through the library readers.'},
     {'id': 'C20', 'engine': 'E2-choice', 'level': 'exploration', 'design_ref': 'DESIGN.md 4/C20',
      'technique': 'exhaustive enumeration of CSV tables (column subsets x rows x value/metacharacter variants x codec x '
                   'format x entry point) through the real tools',
      'text': 'MTI + each single column x 21 value variants, MTI + every pair of columns, all columns (PDS columns or '
              'DE48), rows 1..3 with omitted cells, CSV metacharacters, three codecs, both formats, function and cli_run '
-             'entry points: same rows, same order, every supplied cell textually equal.',
+             'entry points (also argv with default names and a sorted-key JSON configuration file): same rows, same order, '
+             'every supplied cell textually equal; every calendar day of a leap year; an alignment sweep over blocked files.',
      'note': 'Fixed text at exact width, canonical decimals, complete ISO stamps.'},
 ]
 
